@@ -71,19 +71,40 @@ func (h *DirHandler) OutboxCount() int  { return countFiles(path.Join(h.MBoxPath
 func (h *DirHandler) SentCount() int    { return countFiles(path.Join(h.MBoxPath, DIR_SENT)) }
 func (h *DirHandler) ArchiveCount() int { return countFiles(path.Join(h.MBoxPath, DIR_ARCHIVE)) }
 
+// fileName returns the name of the file used to store the message identified by MID.
+//
+// The MID of an inbound message is chosen by the remote station. To ensure it can never
+// address a file outside the mailbox directory, MIDs that are empty, "." or ".." or
+// that contain a path separator (or NUL) are refused.
+func fileName(MID string) (string, error) {
+	if MID == "" || MID == "." || MID == ".." || strings.ContainsAny(MID, "/\\\x00") {
+		return "", fmt.Errorf("MID %q is not usable as a file name", MID)
+	}
+	return MID + Ext, nil
+}
+
 func (h *DirHandler) AddOut(msg *fbb.Message) error {
 	data, err := msg.Bytes()
 	if err != nil {
 		return err
 	}
 
-	return ioutil.WriteFile(path.Join(h.MBoxPath, DIR_OUTBOX, msg.MID()+Ext), data, 0644)
+	name, err := fileName(msg.MID())
+	if err != nil {
+		return err
+	}
+
+	return ioutil.WriteFile(path.Join(h.MBoxPath, DIR_OUTBOX, name), data, 0644)
 }
 
 func (h *DirHandler) ProcessInbound(msgs ...*fbb.Message) (err error) {
 	dir := path.Join(h.MBoxPath, DIR_INBOX)
 	for _, m := range msgs {
-		filename := path.Join(dir, m.MID()+Ext)
+		name, err := fileName(m.MID())
+		if err != nil {
+			return err
+		}
+		filename := path.Join(dir, name)
 
 		m.Header.Set("X-Unread", "true")
 
@@ -104,8 +125,14 @@ func (h *DirHandler) GetInboundAnswer(p fbb.Proposal) fbb.ProposalAnswer {
 		return fbb.Defer
 	}
 
+	name, err := fileName(p.MID())
+	if err != nil {
+		log.Printf("Deferring proposal: %s", err)
+		return fbb.Defer
+	}
+
 	// Check if file exists
-	f, err := os.Open(path.Join(h.MBoxPath, DIR_INBOX, p.MID()+Ext))
+	f, err := os.Open(path.Join(h.MBoxPath, DIR_INBOX, name))
 	if err == nil {
 		f.Close()
 		return fbb.Reject
@@ -119,8 +146,13 @@ func (h *DirHandler) GetInboundAnswer(p fbb.Proposal) fbb.ProposalAnswer {
 }
 
 func (h *DirHandler) SetSent(MID string, rejected bool) {
-	oldPath := path.Join(h.MBoxPath, DIR_OUTBOX, MID+Ext)
-	newPath := path.Join(h.MBoxPath, DIR_SENT, MID+Ext)
+	name, err := fileName(MID)
+	if err != nil {
+		log.Printf("Unable to mark message as sent: %s", err)
+		return
+	}
+	oldPath := path.Join(h.MBoxPath, DIR_OUTBOX, name)
+	newPath := path.Join(h.MBoxPath, DIR_SENT, name)
 
 	if err := os.Rename(oldPath, newPath); err != nil {
 		log.Fatalf("Unable to move %s to %s: %s", oldPath, newPath, err)
